@@ -96,6 +96,165 @@ def gen_lines(rng, tier):
     return L
 
 
+# ---- (a2) stream configurations ---------------------------------------------------------------------
+WS = [32, 9, 10, 11, 12, 13]                      # std::isspace in the classic locale
+
+
+def cfg_token(c):
+    return "%d:%d:%d:%d:%d:%d:%d:%d:%s:%s" % (
+        c["base"], c["showbase"], c["upper"], c["showpos"], c["width"], c["fill"], c["adjust"], c["skipws"],
+        "-" if c["sep"] is None else str(c["sep"]),
+        "-" if c["sep"] is None or not c["grouping"] else "".join("%02x" % g for g in c["grouping"]))
+
+
+def cfg_useg(c):
+    return c["sep"] is not None and bool(c["grouping"]) and 0 < c["grouping"][0] < 127
+
+
+def cfg_gs(c):
+    """the grouping string as the shipped libstdc++ sees it (a NUL byte ends it)"""
+    g = list(c["grouping"])
+    return g[:g.index(0)] if 0 in g else g
+
+
+def cfg_class(c):
+    """`demanded` when the property demands the round trip under this stream configuration (the Lean
+    predicate `Demanded`, design/C07.md), otherwise the first dimension that leaves the class."""
+    if c["base"] != 10:
+        return "outside:basefield"
+    if not c["skipws"]:
+        return "outside:noskipws"
+    if c["width"] and c["fill"] not in WS:
+        return "outside:fill"
+    if cfg_useg(c) and (48 <= c["sep"] <= 57 or c["sep"] in WS):
+        return "outside:separator"
+    return "demanded"
+
+
+def py_group(digits, sep, grouping):
+    """std::__add_grouping"""
+    if not grouping or not 0 < grouping[0] < 127:
+        return digits
+    out, idx = [], 0
+    while 0 < grouping[idx] < 127 and len(digits) > grouping[idx]:
+        out.insert(0, digits[-grouping[idx]:])
+        digits = digits[:-grouping[idx]]
+        if idx < len(grouping) - 1:
+            idx += 1
+    return chr(sep).join([digits] + out)
+
+
+def adv_word(rng):
+    m = rng.below(9)
+    if m == 0:
+        return rng.choice([0, 1, 9, 10, 99, 100, 999, 1000, 1001, 123456, U64, 1 << 63, 10 ** 19, 10 ** 19 - 1])
+    if m == 1:
+        k = rng.between(1, 20)
+        return min(U64, 10 ** k - rng.below(2))
+    if m == 2:
+        return rng.below(10 ** rng.between(1, 20)) & U64
+    if m <= 4:
+        return rng.between(10 ** 19, 1 << 64)
+    return rng.next()
+
+
+def gen_cfg(rng, kind):
+    c = {"base": 10, "showbase": rng.below(2), "upper": rng.below(2), "showpos": rng.below(2), "width": 0,
+         "fill": 32, "adjust": rng.below(4), "skipws": 1, "sep": None, "grouping": []}
+    seps = [44, 46, 39, 95, 59, 58, 47, 34, 42, 97, 120, 88, 45, 43, 101, 126, 127, 1, 160, 255, 102, 70]
+    groupings = [[3], [3], [3], [1], [2], [4], [3, 2], [1, 2, 3], [126], [20], [3, 0], [3, 127], [3, 255],
+                 [2, 1], [5, 4, 3, 2, 1], [19], [7, 200], [3, 0, 2], [2, 3, 0]]
+    if kind in ("group", "any") or (kind == "mix" and rng.below(2)):
+        c["sep"] = rng.choice(seps)
+        c["grouping"] = rng.choice(groupings) if rng.below(8) else rng.choice([[], [0], [127], [255, 3]])
+    if kind in ("pad", "any") or (kind == "mix" and rng.below(2)):
+        c["width"] = rng.choice([1, 5, 19, 20, 21, 26, 27, 30, 83, 84, 90, rng.between(1, 100)])
+        c["fill"] = rng.choice(WS)
+    if kind == "any":            # anything: leaves the demanded class in one or more dimensions
+        m = rng.below(6)
+        if m == 0:
+            c["base"] = rng.choice([16, 16, 8, 0])
+        elif m == 1:
+            c["skipws"] = 0
+        elif m == 2:
+            c["width"] = rng.between(2, 60)
+            c["fill"] = rng.choice([42, 48, 53, 120, 45, 43, 44, 46, 0, 255])
+        elif m == 3:
+            c["sep"] = rng.choice(WS + [48, 49, 57])
+            c["grouping"] = rng.choice([[3], [1], [3, 2]])
+        elif m == 4:
+            c["base"] = rng.choice([16, 8, 0])
+            c["width"] = rng.between(2, 60)
+            c["fill"] = rng.choice([42, 48, 32, 102])
+            c["adjust"] = 2
+    return c
+
+
+def gen_cfg_lines(rng, tier, meta):
+    """round trips under stream configurations the engine does not fix (requests `cfgrt`) and loads of
+    well-formed / damaged texts under such configurations (`cfgload`).  meta[line] = class of the cfg."""
+    big = tier != "quick"
+    L = []
+    seeds = ["0", "1", "default", str(U64), "2", "4294967295"] + [str(rng.next()) for _ in range(20)]
+
+    def engine():
+        m = rng.below(4)
+        if m == 0:
+            return rng.choice(seeds), rng.choice([0, 1, 2, 3, 5, 100]) if rng.below(2) else rng.below(3000)
+        if m == 1:               # every word >= 10^19 (20 digits: the longest text)
+            return "st:" + ":".join(str(rng.between(10 ** 19, 1 << 64)) for _ in range(4)), 0
+        return "st:" + ":".join(str(adv_word(rng)) for _ in range(4)), rng.choice([0, 0, 1])
+
+    plan = [("plain", 60), ("group", 500), ("pad", 200), ("mix", 300), ("any", 500)]
+    for kind, n in plan:
+        for _ in range(n if not big else 6 * n):
+            c = gen_cfg(rng, kind)
+            (a, k), (b, j) = engine(), engine()
+            ln = "cfgrt %s %d %s %d %d %s" % (a, k, b, j, rng.choice([1, 8, 64]), cfg_token(c))
+            meta[ln] = cfg_class(c)
+            L.append(ln)
+    # loads under a configuration: the text a conforming writer produces, then damaged
+    for _ in range(500 if not big else 4000):
+        c = gen_cfg(rng, rng.choice(["group", "group", "mix", "any"]))
+        ws = [adv_word(rng) for _ in range(4)]
+        fmt = {16: "%x", 8: "%o"}.get(c["base"], "%d")
+        toks = [py_group(fmt % w, c["sep"], cfg_gs(c)) if cfg_useg(c) else fmt % w for w in ws]
+        m = rng.below(12)
+        i = rng.below(4)
+        t = toks[i]
+        sepc = chr(c["sep"]) if c["sep"] is not None else ","
+        if m == 0:
+            t = sepc + t
+        elif m == 1:
+            t = t + sepc
+        elif m == 2 and sepc in t:
+            t = t.replace(sepc, sepc + sepc, 1)
+        elif m == 3 and sepc in t:
+            t = t.replace(sepc, "", 1)
+        elif m == 4 and sepc in t:
+            q = t.index(sepc)
+            t = t[:q - 1] + sepc + t[q - 1] + t[q + 1:] if q > 0 else t
+        elif m == 5:
+            t = rng.choice(["+", "-", "+-", "0", "00", "0x", "0X", "x", ".", " "]) + t
+        elif m == 6:
+            t = t[:rng.below(len(t) + 1)]
+        elif m == 7:
+            q = rng.below(len(t))
+            t = t[:q] + rng.choice("0123456789abcdefxX,.+- ") + t[q + 1:]
+        elif m == 8:
+            t = py_group(str(rng.between(1 << 64, 1 << 70)), c["sep"], cfg_gs(c)) if cfg_useg(c) else t + "0"
+        elif m == 9:
+            t = t + rng.choice(["x", ".", ".5", "e3", "f", "8", sepc + "1"])
+        toks[i] = t
+        text = rng.choice(["", "", " ", "\n"]) + rng.choice([" ", " ", "\n", "\t", "  "]).join(toks)
+        text += rng.choice(["", "", " ", "\n", " 7"])
+        ln = "cfgload %s %d %s %s %d" % (rng.choice(seeds), rng.choice([0, 3]), cfg_token(c),
+                                         "".join("%02x" % ord(ch) for ch in text) or "-", 2)
+        meta[ln] = "load"
+        L.append(ln)
+    return L
+
+
 # ---- (c) source scan ----------------------------------------------------------------------------
 SCAN = [
     ("random_device", r"std::random_device", "hard"),
